@@ -12,6 +12,7 @@ import (
 	"bytes"
 	"crypto"
 	"fmt"
+	"sort"
 	"strings"
 	"time"
 
@@ -74,6 +75,15 @@ func legalFor(c *caseCtx, v int, kid, alg string, signer crypto.PublicKey) (lega
 		return false, "", "untrusted-key"
 	}
 	legal, grey, reason = acceptLegal(c.S, kid, alg, signer)
+	if !legal && reason == "untrusted-key" {
+		for name, set := range c.foreign {
+			for _, e := range set {
+				if samePub(e.K.Public(), signer) {
+					reason = "key-of-the-" + name + "-key-set-not-of-this-verifier's"
+				}
+			}
+		}
+	}
 	if legal || c.cached == nil {
 		return
 	}
@@ -154,6 +164,38 @@ func runCase(run *ev.Run, w *worker, v int, i int, onlyOp string) {
 	}
 	c.A = allowLists[c.allowIdx]
 	c.S = genKeySet(r, 4, perClient(v), famsAllowed(c.A))
+	c.ksMode = "default"
+	if (v == vAccess || v == vHint) && r.IntN(2) == 0 {
+		// provider-option dimension: key sets configured apart from the storage's; three disjoint sets
+		c.ksMode = ksModes[1+r.IntN(3)]
+		pref := famsAllowed(c.A)
+		c.storageS = genKeySet(r, 3, false, pref)
+		if c.ksMode == "access-keyset" || c.ksMode == "both" {
+			c.accessS = genKeySetExcluding(r, 2, pref, c.storageS)
+		}
+		if c.ksMode == "hint-keyset" || c.ksMode == "both" {
+			c.hintS = genKeySetExcluding(r, 2, pref, c.storageS, c.accessS)
+		}
+		c.foreign = map[string][]ksEntry{}
+		mine := "storage"
+		switch {
+		case v == vAccess && c.accessS != nil:
+			mine = "access"
+		case v == vHint && c.hintS != nil:
+			mine = "hint"
+		}
+		for name, set := range map[string][]ksEntry{"storage": c.storageS, "access": c.accessS, "hint": c.hintS} {
+			if set == nil {
+				continue
+			}
+			if name == mine {
+				c.S = set
+			} else {
+				c.foreign[name] = set
+			}
+		}
+		c.signedBy = mine
+	}
 	cacheMode := "n/a"
 	skipRemote := false
 	if v == vRemote {
@@ -218,6 +260,25 @@ func runCase(run *ev.Run, w *worker, v int, i int, onlyOp string) {
 		default:
 			kid, c.kidMode = "", "absent"
 		}
+	} else if len(c.foreign) > 0 && r.IntN(3) == 0 {
+		// signed with a key of a key set that exists in this provider but is not this verifier's
+		names := make([]string, 0, len(c.foreign))
+		for n := range c.foreign {
+			names = append(names, n)
+		}
+		sort.Strings(names)
+		c.signedBy = pick(r, names...)
+		set := c.foreign[c.signedBy]
+		e := set[r.IntN(len(set))]
+		signer = e.K
+		switch x := r.IntN(10); {
+		case x < 6:
+			kid, c.kidMode = e.Kid, "foreign-key's-own"
+		case x < 8:
+			kid, c.kidMode = c.S[r.IntN(len(c.S))].Kid, "trusted-key's"
+		default:
+			kid, c.kidMode = "", "absent"
+		}
 	} else if r.IntN(4) != 0 {
 		c.signerOf = "iss-client"
 		c.signerIn = true
@@ -241,6 +302,9 @@ func runCase(run *ev.Run, w *worker, v int, i int, onlyOp string) {
 			kid, c.kidMode = "zz", "unknown"
 		}
 	} else {
+		if c.signedBy != "" {
+			c.signedBy = "attacker"
+		}
 		t := c.S[r.IntN(len(c.S))]
 		fam := poolOf(t.K).fam
 		if r.IntN(4) == 0 {
@@ -315,6 +379,11 @@ func runCase(run *ev.Run, w *worker, v int, i int, onlyOp string) {
 				"allow_list": allowName(c.allowIdx), "base_signer": keyName(signer), "base_alg": alg, "base_kid": kid, "base_token": c.base.Token,
 				"error": err2str(out.err), "claims_returned": out.m, "genuine_payload": string(c.P), "forged_payload": string(c.Evil),
 				"claims_type": map[bool]string{true: "library type", false: "raw-capturing type"}[out.typed], "case": i}
+			if c.ksMode != "" && c.ksMode != "default" {
+				wit["provider_options"] = c.ksMode
+				wit["storage_key_set"], wit["access_token_key_set(WithAccessTokenKeySet)"], wit["id_token_hint_key_set(WithIDTokenHintKeySet)"] = describeSet(c.storageS), describeSet(c.accessS), describeSet(c.hintS)
+				wit["base_signer_from"] = c.signedBy
+			}
 			if v == vAssertion {
 				wit["subject_check"] = map[bool]string{true: "op.SubjectCheck(func(*oidc.JWTTokenRequest) error { return nil })", false: "default SubjectIsIssuer"}[c.permissive]
 				wit["iss"], wit["sub"], wit["signed_by_key_of"] = c.who, c.sub, c.signerOf
@@ -341,10 +410,14 @@ func runCase(run *ev.Run, w *worker, v int, i int, onlyOp string) {
 		}
 		opKey := pr.Op
 		if pr.Variant != "" && (pr.Op == "truncate" || pr.Op == "whitespace" || pr.Op == "parts-count" || pr.Op == "json-smuggle" || pr.Op == "header-edit") {
-			run.Count("variants", pr.Op+"/"+pr.Variant)
+			vv := pr.Variant
+			if i := strings.Index(vv, "("); i >= 0 {
+				vv = vv[:i]
+			}
+			run.Count("variants", pr.Op+"/"+vv)
 		}
 		if decidingStepReached(out) {
-			run.Distinct(strings.Join([]string{vname, pr.Op, pr.Variant, shapeSig(c.S), allowName(c.allowIdx), c.kidMode, fmt.Sprint(c.signerIn), c.algMode, cacheMode, fmt.Sprint(out.accepted), subjectDim(c, v)}, "|"))
+			run.Distinct(strings.Join([]string{vname, pr.Op, pr.Variant, shapeSig(c.S), allowName(c.allowIdx), c.kidMode, fmt.Sprint(c.signerIn), c.algMode, cacheMode, fmt.Sprint(out.accepted), subjectDim(c, v), keySetDim(c)}, "|"))
 		}
 		if !out.accepted {
 			ec := errClass(out.err)
@@ -359,6 +432,12 @@ func runCase(run *ev.Run, w *worker, v int, i int, onlyOp string) {
 						reason = "legal-but-not-unique(grey)"
 					}
 					run.Count("genuine-rejected-because:"+vname, reason+" -> "+ec)
+					if kd := keySetDim(c); kd != "" {
+						run.Count("key-set-option:"+vname, kd+" -> rejected: "+ec)
+						if c.signedBy != "attacker" && len(c.foreign) > 0 && c.foreign[c.signedBy] != nil && strings.HasPrefix(ec, "ErrSignatureInvalid") {
+							run.Observed("key-of-another-key-set-refused-at-signature:" + vname)
+						}
+					}
 					if v == vAssertion {
 						run.Count("subject-dimension:"+vname, subjectDim(c, v)+" kid="+c.kidMode+" -> rejected: "+ec)
 						if c.permissive && c.signerOf == "sub-client" && strings.HasPrefix(ec, "ErrSignatureInvalid") {
@@ -375,6 +454,16 @@ func runCase(run *ev.Run, w *worker, v int, i int, onlyOp string) {
 				}
 				if (pr.Op == "json-smuggle" || pr.Op == "json-unprotected-kid") && ec == "ErrSignatureInvalidPayload" {
 					run.Observed("smuggling-reached-payload-comparison:" + vname)
+					if strings.Contains(pr.Variant, "/case-") {
+						run.Observed("case-variant-smuggling-refused-by-payload-comparison:" + vname)
+					}
+					if i := strings.Index(pr.Variant, "/"); i >= 0 && pr.Op == "json-smuggle" {
+						nk := pr.Variant[i+1:]
+						if j := strings.Index(nk, "("); j >= 0 {
+							nk = nk[:j]
+						}
+						run.Count("smuggled-payload-kind-refused-at-comparison:"+vname, nk)
+					}
 				}
 			}
 			sampleMaybe(run, vname, pr, out, c)
@@ -439,6 +528,14 @@ func runCase(run *ev.Run, w *worker, v int, i int, onlyOp string) {
 		}
 		if pr.Op == "genuine" {
 			run.Observed("accept-genuine:" + vname)
+			if kd := keySetDim(c); kd != "" {
+				run.Count("key-set-option:"+vname, kd+" -> accepted")
+				if (v == vAccess && c.accessS != nil) || (v == vHint && c.hintS != nil) {
+					run.Observed("configured-key-set-honoured:" + vname)
+				} else {
+					run.Observed("storage-keys-kept-when-only-the-other-key-set-is-configured:" + vname)
+				}
+			}
 			if v == vAssertion {
 				run.Count("subject-dimension:"+vname, subjectDim(c, v)+" kid="+c.kidMode+" -> accepted")
 				if c.permissive && c.subMode == "other-client" {
@@ -448,6 +545,13 @@ func runCase(run *ev.Run, w *worker, v int, i int, onlyOp string) {
 		}
 		sampleMaybe(run, vname, pr, out, c)
 	}
+}
+
+func keySetDim(c *caseCtx) string {
+	if c.ksMode == "" || c.ksMode == "default" {
+		return ""
+	}
+	return "provider-option=" + c.ksMode + "/signed-by=" + c.signedBy
 }
 
 func subjectDim(c *caseCtx, v int) string {
@@ -493,16 +597,25 @@ func main() {
 	run.SetRule("per case: one verifier, one key-set shape (1-4 published keys x kid/no-kid/duplicate kid x use sig/enc/none x RSA/P-256/P-384/P-521/Ed25519), one allow-list (default or 5 explicit ones), " +
 		"one genuinely signed token (signer published or not, kid own/absent/other/unknown, algorithm allowed or not) presented untouched and under 4 of 23 manipulation operators; every presentation is one evaluation; " +
 		"distinct = distinct vectors (verifier, operator, variant, key-set shape, allow-list, kid mode, signer published, alg allowed, cache mode, accepted) among presentations that got past ParseToken/claim checks to the signature step; " +
+		"smuggled payloads are the far forged payload or one at small edit distance from the signed one (letter case of values / names / both, one byte changed / appended / removed, same length, whitespace only) in 7 placements; " +
+		"op-access-token and op-id-token-hint additionally run against providers configured with op.WithAccessTokenKeySet / op.WithIDTokenHintKeySet / both (three disjoint key sets: storage, access, hint; signer drawn from any of them or an attacker key); " +
+		"op-jwt-assertion additionally varies the subject check (default / permissive), sub (= iss / other registered client / unknown) and whose key signed; " +
 		"oidc.FindMatchingKey is enumerated completely over all key sets of <=3 keys x kid in {none,a,b} x use in {sig,enc,none} x {RSA,EC P-256,EC P-384,Ed25519} x 4 token kids x 9 algorithms and sampled for 4-5 keys")
 	run.Assume("acceptance is judged by provenance (the harness' ledger of what it signed), never by string equality with what was serialised",
 		"per-client keys (JWT assertion, request object) are selected by the storage by exact key ID; a client key registered with use=enc is grey there",
+		"op-access-token / op-id-token-hint: the trust set is exactly the key set the provider was configured with for that verifier (op.WithAccessTokenKeySet / op.WithIDTokenHintKeySet), the storage's published keys when none is configured",
 		"op-jwt-assertion: the trust set is the keys the storage holds for the client named in iss, whatever sub says; with the default SubjectIsIssuer check a token with sub != iss may be refused before the signature is looked at",
 		"a token with kid facing several kid-less candidate keys is grey (DESIGN 6a); an EC key of another curve counts as a candidate for ambiguity only in favour of the library",
 		"remote key set: an acceptance is legal if it is legal for the cached or for the currently served document; must-accept only when both agree",
 		"a payload of JSON null is C09's subject and is not generated here")
 	var mand []string
 	for v, n := range verifierNames {
-		mand = append(mand, "accept-genuine:"+n, "forgery-rejected-at-signature:"+n, "smuggling-reached-payload-comparison:"+n)
+		mand = append(mand, "accept-genuine:"+n, "forgery-rejected-at-signature:"+n, "smuggling-reached-payload-comparison:"+n,
+			"case-variant-smuggling-refused-by-payload-comparison:"+n)
+		if v == vAccess || v == vHint {
+			mand = append(mand, "configured-key-set-honoured:"+n, "storage-keys-kept-when-only-the-other-key-set-is-configured:"+n,
+				"key-of-another-key-set-refused-at-signature:"+n)
+		}
 		if !perClient(v) {
 			mand = append(mand, "ambiguity-reported:"+n)
 		}
